@@ -171,6 +171,12 @@ def run_jobs(jobs, parallel=None, progress=None):
                     j.stderr = f.read()[-20000:]
             except OSError:
                 j.stderr = ""
+            if j.status != "timeout" and rc != 0:
+                try:
+                    with open(j.prog_path) as f:
+                        j.stalled_case = json.load(f)
+                except Exception:
+                    j.stalled_case = None
             if j.status != "timeout":
                 if rc == 0 and os.path.exists(j.out_path):
                     try:
